@@ -37,6 +37,7 @@ def run(ctx):
         if not c.startswith("unsafe"):
             ctx.guard("C12", "piece", lambda: piece.piece_effects(ctx, prog))
         ctx.guard("C12", "const values", lambda: data.const_census(ctx, prog, data.CONST_SCOPES["C12"], floor=1))
+        ctx.guard("C12", "panic conditions", lambda: beliefs.live_census(ctx, prog, beliefs.SCOPES["C12"][0]))
         ctx.guard("C12", "overflow-borders", lambda: gen.overflow_borders(ctx, prog))
         ctx.guard("C12", "summaries", lambda: summary.check(ctx, prog, 'Generator::(new|set_fixed_input_size_in_usize)$|<internals::generate::Generator as core::default::Default|generate_easy', floor=2))
         ctx.guard("C12", "path summaries", lambda: summary.check_paths(ctx, prog, 'Generator::(new|set_fixed_input_size_in_usize)$|<internals::generate::Generator as core::default::Default|generate_easy', floor=0))
